@@ -56,8 +56,19 @@ pub fn case(ctx: &mut Ctx, universe: &str, stmts: &[E]) {
     let ast = match pipeline::parse(&text) { Ok(a) => a, Err(_) => return };
     let prog = match pipeline::compile(&ast) { Ok(p) => p, Err(_) => { ctx.count("compile_rejected", 1); return } };
     let plain = pipeline::execute(&prog);
-    // the same log path for every case of this worker: logs of different lengths overwrite each other
+    // The log path already holds an OLDER, LONGER log in two cases out of three (a run that overwrites an
+    // earlier log must leave only its own records), is absent in the third. The old log is written
+    // here, inside the case, so that the verdict of a case never depends on the cases before it (a
+    // report must reproduce when its case is re-run alone).
     let logf = ctx.scratch.join("heap.csv");
+    match ctx.index % 3 {
+        0 => { let _ = std::fs::remove_file(&logf); }
+        k => {
+            let mut old = String::from("timestamp,event,heap\n1700000000000000000,S,0\n");
+            for i in 0..(if k == 1 { 40 } else { 400 }) { old.push_str(&format!("17000000000000{:05},A,{}\n", i, 48 * (i + 1))) }
+            let _ = std::fs::write(&logf, old);
+        }
+    }
     let logged = pipeline::execute_cfg(&prog, Some(if ctx.index % 2 == 0 { 0 } else { 1 }), Some(logf.clone()));
     ctx.count("traces_validated_against_impl", 1);
     if plain != logged {
@@ -166,6 +177,14 @@ fn processes(ctx: &mut Ctx) {
         cli::simple(&exe, &["compile", ast.to_str().unwrap(), "-o", bcf.to_str().unwrap()]);
         ctx.count("programs", 1);
         ctx.nontrivial(src.as_bytes());
+        // the shared log paths start every case holding an older, longer log (written here: self-contained)
+        for l in ["log.csv", "new/dir/log.csv"] {
+            let lp = ctx.scratch.join("shared").join(l);
+            if let Some(d) = lp.parent() { let _ = std::fs::create_dir_all(d); }
+            let mut old = String::from("timestamp,event,heap\n1700000000000000000,S,0\n");
+            for i in 0..500 { old.push_str(&format!("17000000000000{:05},A,{}\n", i, 48 * (i + 1))) }
+            let _ = std::fs::write(&lp, old);
+        }
         let mut n = 0;
         for action in ["run", "execute"] {
             let input = if action == "run" { f.clone() } else { bcf.clone() };
@@ -217,7 +236,13 @@ fn cli_case_with(ctx: &mut Ctx, stmts: &[E], fuel: refsem::Fuel) {
     for (action, input) in [("run", f.clone()), ("execute", bcf.clone())] {
         let base = cli::simple(&exe, &[action, input.to_str().unwrap()]);
         let lp = ctx.scratch.join(format!("{}.csv", action));
+        // `run` writes to a fresh path, `execute` over an older, longer log (written here, see `case`)
         let _ = std::fs::remove_file(&lp);
+        if action == "execute" {
+            let mut old = String::from("timestamp,event,heap\n1700000000000000000,S,0\n");
+            for i in 0..3_000 { old.push_str(&format!("17000000000000{:06},A,{}\n", i, 48 * (i + 1))) }
+            let _ = std::fs::write(&lp, old);
+        }
         let res = cli::simple(&exe, &[action, input.to_str().unwrap(), "--heap-log", lp.to_str().unwrap(), "--heap-size", "1"]);
         ctx.count("cli_runs", 1);
         let content = std::fs::read_to_string(&lp).unwrap_or_default();
